@@ -101,8 +101,8 @@ Print Assumptions C08_fault_refuted.
     createdisk-sync-after-commit; not repaired).  That call is what [excluded] describes. *)
 Theorem C08_fault_refuted_sync_after_commit :
   fault_outcome (cfg_asis 8) wit_state (OSnap 1 false 1) 26 EIO = (CErr, false)
-  /\ fault_outcome (mkcfg 8 true true false false false)
-       (run_ops (mkcfg 8 true true false false false) (created (mkcfg 8 true true false false false) 16384 7) [OOpen; OSetMode (Some RW)])
+  /\ fault_outcome (mkcfg 8 true true false false false false)
+       (run_ops (mkcfg 8 true true false false false false) (created (mkcfg 8 true true false false false false) 16384 7) [OOpen; OSetMode (Some RW)])
        (OSnap 1 false 1) 26 EIO = (CErr, false).
 Proof. exact fault_refuted_sync_after_commit. Qed.
 Print Assumptions C08_fault_refuted_sync_after_commit.
